@@ -94,6 +94,10 @@ def explore(res, scale=1, seed=None):
         if not ok:
             res.tie_broken("extraction", "vm_compute inside Coq disagrees with the extracted evaluator:\n" + slog)
         os.remove(out)
+    # decimal storage classes at their precision boundaries (1-9 / 10-18 / 19-38 / 39-76 digits, ClickHouse's documented
+    # rule), plain and under Nullable / Array: own class binds, any other class is an error (direct oracle)
+    from lib import colfam
+    colfam.run_family(res, "c18cross", 320 * scale, seed, builds=("default",), sample=False, glue="Res", gluemod="GlueRes")
     res.extra["rule"] = (
         "cases come from the seeded generators of harness/c18.go over real Block.EncodeBlock/DecodeBlock with proto.Results, "
         "AutoResult and Results.Auto(): equal schemas (catalogue columns, revisions on both sides of every feature), one column "
